@@ -1060,7 +1060,7 @@ func ruleLogLevels(c *Ctx) {
 	seenPrefix := map[string]bool{}
 	ast.Inspect(f.Body, func(x ast.Node) bool {
 		sw, ok := x.(*ast.SwitchStmt)
-		if !ok {
+		if !ok || isWrapperSwitch(sw) {
 			return true
 		}
 		for _, cl := range sw.Body.List {
@@ -1207,4 +1207,14 @@ func descendingComparator(info *types.Info, fl *ast.FuncLit, list *types.Var, so
 		}
 	}
 	return false
+}
+
+// isWrapperSwitch: `switch { default: ... }` with a single clause, as produced by
+// the helper inliner for early returns; transparent for clause-based rules.
+func isWrapperSwitch(sw *ast.SwitchStmt) bool {
+	if sw.Tag != nil || sw.Init != nil || len(sw.Body.List) != 1 {
+		return false
+	}
+	cc, ok := sw.Body.List[0].(*ast.CaseClause)
+	return ok && cc.List == nil
 }
